@@ -5,6 +5,7 @@ import asyncio
 
 import aiohomekit.controller.ble.client as real_client
 import aiohomekit.controller.ble.pairing as real_blep
+import aiohomekit.controller.ip.connection as real_ipc
 import aiohomekit.controller.ip.pairing as real_ipp
 import aiohomekit.exceptions as X
 import aiohomekit.protocol as real_proto
@@ -17,6 +18,7 @@ from . import common, hap
 from .refs import byte, rope, tlv8_encode
 
 PROP = "C04"
+IPC = "aiohomekit.controller.ip.connection"
 TLVM, PROTO, IPP, BLEP = "aiohomekit.protocol.tlv", "aiohomekit.protocol", "aiohomekit.controller.ip.pairing", "aiohomekit.controller.ble.pairing"
 CLIENT = "aiohomekit.controller.ble.client"
 T_STATE, T_ERROR, T_PUBKEY, T_SALT, T_PROOF, T_ENC, T_ID, T_SIG = 6, 7, 3, 2, 4, 5, 1, 10
@@ -35,12 +37,14 @@ def copies(mutate=None):
     m.ipp = load(IPP, deps={TLVM: m.tlv, PROTO: m.proto}, src_transform=mutate.get(IPP))
     m.blep = load(BLEP, deps={TLVM: m.tlv, PROTO: m.proto}, src_transform=mutate.get(BLEP))
     m.client = load(CLIENT, deps={TLVM: m.tlv}, src_transform=mutate.get(CLIENT))
+    m.ipc = load(IPC, deps={TLVM: m.tlv, PROTO: m.proto}, src_transform=mutate.get(IPC))
     return m
 
 
 def reals():
     m = Mods()
     m.tlv, m.proto, m.ipp, m.blep, m.client = real_tlv, real_proto, real_ipp, real_blep, real_client
+    m.ipc = real_ipc
     return m
 
 
@@ -89,6 +93,29 @@ def deliver(ex, be, M, gen, fields, expected, transport):
     body = body if be.sym else bytes(body.concrete())
     if transport == "filtered":  # IP post_tlv / CoAP: TLV.decode_bytes(body, expected=expected)
         msg = M.tlv.TLV.decode_bytes(body, expected=expected)
+    elif transport == "ip-http":
+        # the whole IP path: post_tlv -> post -> request with the reply carried by an HTTP 200 or an HTTP 4xx status
+        status = ex.choice("http_status", [200, 470, 429])
+
+        class Resp:
+            code = status
+
+        Resp.body = body
+
+        class Proto:
+            async def send_bytes(self, request_bytes):
+                return Resp()
+
+        class Tr:
+            def close(self):
+                pass
+
+        conn = object.__new__(M.ipc.HomeKitConnection)
+        conn.protocol, conn.transport, conn.host_header, conn.connected_host = Proto(), Tr(), "Host: 10.0.0.1", "10.0.0.1"
+        conn._concurrency_limit = asyncio.Semaphore(1)
+        conn.owner = None
+        msg = drive(conn.post_tlv("/pair-step", body=[(T_STATE, b"\x01")], expected=expected))
+        ex.tag("http-%d" % status)
     elif transport == "unfiltered":  # BLE _pairing_char_write, reply in one piece: dict(TLV.decode_bytes(buffer))
         msg = dict(M.tlv.TLV.decode_bytes(body))
     else:
@@ -324,14 +351,16 @@ def build(tier, mutate=None):
     C = copies(mutate)
     R = reals()
     units = []
-    names = {"filtered": "ip-coap(expected filter)", "unfiltered": "ble(one piece)", "fragmented": "ble(two fragments, any split)"}
+    names = {"filtered": "ip-coap(expected filter)", "unfiltered": "ble(one piece)", "fragmented": "ble(two fragments, any split)",
+             "ip-http": "ip(post_tlv, HTTP 200 or 4xx)"}
     for step in STEPS:
-        for transport in ("filtered", "unfiltered", "fragmented"):
+        for transport in ("filtered", "unfiltered", "fragmented") + (("ip-http",) if step in ("verify-M4", "setup-M2") else ()):
             units.append(Unit("%s/%s" % (step, names[transport]),
                               step_unit(C, step, transport), step_unit(R, step, transport), split=True,
                               bounds={"state": "absent or any byte 0..255", "error": "absent, any byte 0..255, empty, two bytes", "other_fields": "every subset",
                                       "fragment split": "0..len(reply) (symbolic)" if transport == "fragmented" else "-"},
-                              regions=["error-or-wrong-state", "clean-reply", "error-without-state"] + (["fragmented"] if transport == "fragmented" else [])))
+                              regions=["error-or-wrong-state", "clean-reply", "error-without-state"] + (["fragmented"] if transport == "fragmented" else [])
+                              + (["http-200", "http-470"] if transport == "ip-http" else [])))
     for transport in ("unfiltered", "fragmented"):
         units.append(Unit("verify-M2-resume/%s" % names[transport], resume_unit(C, transport), resume_unit(R, transport), split=True,
                           bounds={"state": "absent or any byte", "error": "absent, any byte, empty, two bytes", "resume items": "valid"},
